@@ -1,5 +1,5 @@
 From Coq Require Import ZArith String List Bool.
-From Flox Require Import ListX Val Agg Hom Spec Pipeline PipelineLaw Registry C04Proofs C02Proofs.
+From Flox Require Import FloxTree FloxTreeLaw ListX Val Agg Hom Spec Pipeline PipelineLaw Registry C04Proofs C02Proofs.
 Import ListNotations.
 Open Scope Z_scope.
 
@@ -46,3 +46,9 @@ Definition tree_case_ok (c : nat * nat * list nat) : bool :=
 
 Example tree_7_2 : model_tree_ser 3 2 = [1;2; 1;2; 0;0; 0;1; 1;1; 0;2]%nat.
 Proof. reflexivity. Qed.
+
+(* K2 for flox's own tree builder: (number of blocks n, fan-in k, number of levels the REAL _tree_reduce used, the tree it wired):
+   the depth suffices (n <= k^depth, the hypothesis of flox_tree_covers) and the wiring is the model's *)
+Definition floxtree_case_ok (c : nat * nat * nat * list nat) : bool :=
+  let '(n, k, depth, real) := c in
+  N.leb (N.of_nat n) (N.of_nat k ^ N.of_nat depth) && Nat.leb 1 depth && list_nat_eqb (ser (flox_tree depth k (seq 0 n))) real.
